@@ -61,13 +61,27 @@ def tok_records(tokens: list) -> list[dict]:
 
 def contexts_for(tokens: list) -> list[str]:
     ctxs = ["eval", "imm16"]
-    if tokens[0] != "(":
+    # `lda.l (e)` is indirect addressing; `lda.l (e) op f` is a direct operand whose text starts with a group
+    if tokens[0] != "(" or not group_spans_all(tokens):
         ctxs.append("long24")
     if "|" not in tokens and "~" not in tokens:
         ctxs += DIRECTIVE_CTXS
         if "<<" not in tokens and "*" not in tokens and all(not isinstance(t, int) or t < 64 for t in tokens):
             ctxs.append("for")
     return ctxs
+
+
+def group_spans_all(tokens: list) -> bool:
+    """does the parenthesis opened by the first token close at the last token?"""
+    depth = 0
+    for k, t in enumerate(tokens):
+        if t == "(":
+            depth += 1
+        elif t == ")":
+            depth -= 1
+            if depth == 0:
+                return k == len(tokens) - 1
+    return True
 
 
 def random_tree(rnd: random.Random, depth: int) -> list:
